@@ -482,6 +482,15 @@ def oracle(case, stats=None):
                             rel(x, y) > all_tols[ms[i]][k] + all_tols[ms[j]][k]:
                         fails.append(("modes-disagree:%s-vs-%s:%s" % (ms[i], ms[j], k),
                                       "%s: %s gives %.10g, %s gives %.10g" % (k, ms[i], x, ms[j], y)))
+    # known finding F20 (upstream lenstronomy): in a CLOSED universe the tabulated mode recovers the comoving distance from
+    # D_A with the principal branch of arcsin, which is only right up to the equator (sqrt(-Ok) chi / D_H <= pi/2); a table
+    # of D_A cannot tell the two branches apart.  Violations of that kind get their own signature prefix so that the
+    # known-findings file can name exactly them; everything else in tabulated mode keeps its signature.
+    ok0 = 1.0 - p[1] - p[2]
+    if ok0 < 0 and fails:
+        ztop = max(z for z in (zd, zs, zs2 if lt == "DSPL" else zs, za if lt == "Mag" else zs))
+        if math.sqrt(-ok0) * ref_integral(p, 0, ztop) > math.pi / 2:
+            fails = [(("tabulated-closed-beyond-equator:" + sg) if "tabulated" in sg else sg, txt) for sg, txt in fails]
     return fails, obs, ref
 
 
@@ -558,6 +567,10 @@ def corner_cases():
     out.append(dict(base, model="FLCDM", kw={"h0": 70.0, "om": 1.0}, ltype="Mag"))    # Einstein-de Sitter
     out.append(dict(base, model="w0waCDM", kw=dict(planck, w0=-1.0, wa=0.0), ltype="DSPL"))
     out.append(dict(base, model="FLCDM", kw=dict(planck), ltype="DSPL", zs2=1.0))      # second source in front of the first
+    # known finding F20: closed universe, source beyond the equator, tabulated distances (found by seed 8 of the random stream)
+    out.append(dict(base, model="oLCDM", kw={"h0": 49.385771522722436, "om": 0.11556205399563751, "ok": -0.2696908018352196},
+                    zd=2.0076644948307436, zs=4.585703689988845, zs2=5.085703689988845, za=1.4000698178489641,
+                    ltype="DdtGaussian", num_interp=150, ntab=400))
     return out
 
 
